@@ -40,6 +40,15 @@
 
 #include "htp_private.h"
 
+#ifdef LIBHTP_VERIF
+// Verification hook, compiled only with -DLIBHTP_VERIF: the number of key
+// comparisons made by the lookup functions (the cost measure of a lookup).
+unsigned long htp_verif_table_cmp = 0;
+#define HTP_VERIF_TABLE_CMP() (htp_verif_table_cmp++)
+#else
+#define HTP_VERIF_TABLE_CMP()
+#endif
+
 static htp_status_t _htp_table_add(htp_table_t *table, const bstr *key, const void *element) {
     // Add key.
     if (htp_list_add(&table->list, (void *)key) != HTP_OK) return HTP_ERROR;
@@ -192,6 +201,7 @@ void *htp_table_get(const htp_table_t *table, const bstr *key) {
     for (size_t i = 0, n = htp_list_size(&table->list); i < n; i += 2) {
         bstr *key_candidate = htp_list_get(&table->list, i);
         void *element = htp_list_get(&table->list, i + 1);
+        HTP_VERIF_TABLE_CMP();
         if (bstr_cmp_nocase(key_candidate, key) == 0) {
             return element;
         }
@@ -208,6 +218,7 @@ void *htp_table_get_c(const htp_table_t *table, const char *ckey) {
     for (size_t i = 0, n = htp_list_size(&table->list); i < n; i += 2) {
         bstr *key_candidate = htp_list_get(&table->list, i);
         void *element = htp_list_get(&table->list, i + 1);
+        HTP_VERIF_TABLE_CMP();
         if (bstr_cmp_c_nocasenorzero(key_candidate, ckey) == 0) {
             return element;
         }
@@ -236,6 +247,7 @@ void *htp_table_get_mem(const htp_table_t *table, const void *key, size_t key_le
     for (size_t i = 0, n = htp_list_size(&table->list); i < n; i += 2) {
         bstr *key_candidate = htp_list_get(&table->list, i);
         void *element = htp_list_get(&table->list, i + 1);
+        HTP_VERIF_TABLE_CMP();
         if (bstr_cmp_mem_nocase(key_candidate, key, key_len) == 0) {
             return element;
         }
